@@ -1,5 +1,5 @@
 /* File / clock / temp-file seams.  The repo TUs are compiled with
- *   writer.c : -Dwrite=sim_write -Dopen=sim_open -Dclose=sim_close -Ddup=sim_dup
+ *   writer.c : -Dwrite=sim_write -Dwritev=sim_writev -Dpwrite=sim_pwrite -Dpwritev=sim_pwritev -Dopen=sim_open -Dclose=sim_close -Ddup=sim_dup
  *   reader.c : -Dmmap=sim_mmap -Dmunmap=sim_munmap -Dopen=sim_open -Dclose=sim_close
  *   sorter.c : -Dmkstemp=sim_mkstemp -Dunlink=sim_unlink -Dclose=sim_close
  *   fileset.c: -Dclock_gettime=sim_clock_gettime
@@ -15,6 +15,10 @@ extern "C" {
 #endif
 
 ssize_t sim_write(int fd, const void *buf, size_t n);
+struct iovec;
+ssize_t sim_writev(int fd, const struct iovec *iov, int cnt);
+ssize_t sim_pwrite(int fd, const void *buf, size_t n, off_t off);
+ssize_t sim_pwritev(int fd, const struct iovec *iov, int cnt, off_t off);
 int sim_open(const char *path, int flags, ...);
 int sim_close(int fd);
 int sim_dup(int fd);
@@ -34,7 +38,7 @@ void sim_wfault_arm_list(const struct sim_wfault *list, size_t n);
 /* profile: every call draws from a PRNG: short_pm / eintr_pm per mille */
 void sim_wfault_arm_profile(uint64_t seed, int short_pm, int eintr_pm);
 void sim_wfault_disarm(void);
-struct sim_wstats { uint64_t calls, full, shorts, eintrs, hards, bytes, eintr_runs2; uint64_t call_sizes_hash; };
+struct sim_wstats { uint64_t calls, full, shorts, eintrs, hards, bytes, eintr_runs2, vectored; uint64_t call_sizes_hash; };
 void sim_wstats_get(struct sim_wstats *);
 /* log of write calls (sizes) since arm, for exhaustive single-fault sweeps */
 size_t sim_wlog(uint32_t *sizes, size_t max);
